@@ -20,6 +20,14 @@ def arr_type(dims, cls="Duck", cat="Shaped", dtypes=None):
     return j
 
 
+def nested(arr_t, k):
+    """the same annotation written as Cat[Cat[A, <axes k..>], <axes ..k>] (the implementation builds it nested, the model
+    sees the flat axes: nesting concatenates, C15)"""
+    j = dict(arr_t)
+    j["split"] = k
+    return j
+
+
 _cat_cache = {}
 
 
